@@ -489,6 +489,7 @@ type dsResult struct {
 	compacted  int64
 	blockOK    bool
 	infra      string
+	cut        string // non-empty: the hard deadline stopped this data set
 }
 
 type api interface {
@@ -944,7 +945,13 @@ func (c *checker) checkProbes(probes []string) {
 	} else {
 		it = ki
 	}
-	for _, p := range probes {
+	for pi, p := range probes {
+		if pi%512 == 511 && time.Now().After(hardDeadline) {
+			c.mu.Lock()
+			c.res.cut = "during stage " + c.stage
+			c.mu.Unlock()
+			break
+		}
 		ci, hi := c.ceilIdx(p), c.highIdx(p)
 		if ci == hi { // p is not live: exact get must not find anything
 			rk, found, prob, err := a.get(p, kv.ComparisonEqual, c.verify)
@@ -998,6 +1005,12 @@ func (c *checker) checkProbes(probes []string) {
 }
 
 func (c *checker) check(stage string) {
+	if c.res.cut != "" || time.Now().After(hardDeadline) {
+		if c.res.cut == "" {
+			c.res.cut = "before stage " + stage
+		}
+		return
+	}
 	c.stage = stage
 	c.stageSeq++
 	a := c.a
@@ -1179,6 +1192,9 @@ func runDataset(w *worker, spec *dsSpec) *dsResult {
 	c.rebuildRef()
 	tp("written")
 	c.check("committed")
+	if res.cut != "" {
+		return res
+	}
 	tp("checked")
 	if err := a.kv().Flush(); err != nil {
 		c.engineErr("flush", err)
@@ -1187,6 +1203,9 @@ func runDataset(w *worker, spec *dsSpec) *dsResult {
 	tp("flushed")
 	c.tableInfo()
 	c.check("flushed")
+	if res.cut != "" {
+		return res
+	}
 	tp("checked")
 	pdb := kv.VerifPebble(a.kv())
 	if err := compactAll(a.kv(), c.ref); err != nil {
@@ -1195,6 +1214,9 @@ func runDataset(w *worker, spec *dsSpec) *dsResult {
 	}
 	tp("compacted")
 	c.check("compacted")
+	if res.cut != "" {
+		return res
+	}
 	tp("checked")
 	if spec.Mutate {
 		var dels []string
@@ -1224,16 +1246,25 @@ func runDataset(w *worker, spec *dsSpec) *dsResult {
 		}
 		c.rebuildRef()
 		c.check("mutated")
+		if res.cut != "" {
+			return res
+		}
 		if err := a.kv().Flush(); err != nil {
 			c.engineErr("flush", err)
 			return res
 		}
 		c.check("mutated+flushed")
+		if res.cut != "" {
+			return res
+		}
 		if err := compactAll(a.kv(), c.ref); err != nil {
 			c.engineErr("compact", err)
 			return res
 		}
 		c.check("mutated+compacted")
+		if res.cut != "" {
+			return res
+		}
 	}
 	mt := pdb.Metrics()
 	res.moved, res.compacted = mt.Compact.MoveCount, mt.Compact.Count
@@ -1243,6 +1274,8 @@ func runDataset(w *worker, spec *dsSpec) *dsResult {
 const causeSeparator = "index-separator-not-below-next-key"
 
 var theDiag contractDiag
+var hardDeadline time.Time
+
 var timing = os.Getenv("VERIF_C11_TIMING") != ""
 
 // diagnose names the root cause of an engine mismatch from the comparer-contract diagnostic.
@@ -1472,6 +1505,10 @@ func (co *collector) take(r *dsResult) {
 	run.Add("tables_with_two_level_index", r.twoLevel)
 	run.Add("compactions", r.compacted)
 	run.Add("move_compactions", r.moved)
+	if r.cut != "" {
+		run.Add("datasets_cut_by_deadline", 1)
+		run.NotExhaustive(fmt.Sprintf("deadline: data set %s stopped %s", sp.Name, r.cut))
+	}
 	if r.infra != "" {
 		run.Add("infrastructure_errors", 1)
 		run.Note("infrastructure: " + sp.Name + ": " + r.infra)
@@ -1553,6 +1590,7 @@ func realMain() {
 	}
 	start := time.Now()
 	deadline := start.Add(budget)
+	hardDeadline = deadline.Add(budget / 10) // running data sets stop here; no new ones are submitted after deadline
 
 	U3 := buildUniverse(alphabetFull, 3)
 	U2 := buildUniverse(alphabetFull, 2)
@@ -1706,7 +1744,7 @@ func realMain() {
 		run.NotExhaustive("deadline reached: " + strings.Join(cutNotes, "; "))
 	}
 	for k, v := range co.secs {
-		run.Coverage["cpu_seconds_"+k] = fmt.Sprintf("%.1f", v)
+		run.Coverage["worker_seconds_"+k] = fmt.Sprintf("%.1f", v)
 	}
 	run.Sample(map[string]any{"law": "antisymmetry/zero-iff-equal/segment-order/heap-less on every ordered pair, transitivity on every ordered triple", "universe": len(lawU)})
 	run.Sample(map[string]any{"dataset": "pair", "keys": []string{q(P3[1]), q(P3[len(P3)-1])}, "value_bytes": blockValue, "stages": []string{"committed", "flushed", "compacted"},
@@ -1764,6 +1802,7 @@ func doReplay(path string, U3, U1 []string) int {
 		fmt.Println("data set not found:", rp.Name)
 		return 2
 	}
+	hardDeadline = time.Now().Add(time.Hour)
 	w := newWorker(0)
 	defer w.f.Close()
 	r := runDataset(w, sp)
